@@ -490,11 +490,12 @@ package mqtt
 
 //@ func (*RetryClient).SetClient
 //@   mode int
-//@   props C01 C17
+//@   props C01 C09 C17
 //@   requires c != nil
 //@   relies c.chConnSwitch == nil || !closed(c.chConnSwitch)
 //@   assigns c.chTask
 //@   ensures[C01] installed: c.cli == cli && c.chConnectErr != nil && fresh(c.chConnectErr) && c.chConnSwitch != nil && fresh(c.chConnSwitch)
+//@   ensures[C01,C09] connect_result_buffered: chanCap(c.chConnectErr) >= 1
 //@   let task0 chan struct{} = c.chTask
 //@   ensures[C01] one_loop: evCount("go:(*RetryClient).SetClient$1") == ite(task0 == nil, 1, 0) && c.chTask != nil && (task0 != nil ==> c.chTask == task0)
 //@   ensures[C01,C02] switch_signalled: guardVal(&c.chConnSwitch) != nil ==> evCount("close") == 1 && evArg[chan struct{}]("close", 0, 0) == guardVal(&c.chConnSwitch)
